@@ -31,6 +31,15 @@ CLAIMED = {
                 note='trusted: process-death crash model (page-cache survives, syscalls ordered, page-granular tears), SimFS '
                      'journal replay; histories are sampled, crash points per history are enumerated',
                 technique='deterministic simulation: journalled simulated file system, enumeration of crash prefixes and torn writes, restart through fresh objects'),
+    'C19': dict(level='exploration', ref='DESIGN.md 6.9',
+                text='seeded store / bulk store / overwrite / remove histories on the real CompactCacheV1/V2 over SimFS; after '
+                     'every operation the bundle bytes are parsed by an independent reader written from the format '
+                     'description (index entries empty or pointing at complete, size-matching, non-overlapping records) and '
+                     'compared with a dict model; the real defrag_compact_cache then runs with seeded thresholds: same bytes '
+                     'for every address, no file grew, still valid. Concurrent configuration: 2-3 writer processes '
+                     'scheduled at file-system-call granularity, checked at quiescence.',
+                note='trusted: the independent parser (checks/bundleparse.py), SimFS; histories and schedules are sampled',
+                technique='deterministic simulation: model-based history checking with an independent bundle parser; seeded schedule search for concurrent bundle writers'),
 }
 
 NA = {
@@ -46,7 +55,7 @@ NA = {
     'C18': 'well-formedness/escaping of responses is a function of the request bytes',
 }
 
-PENDING = ['C08', 'C11', 'C12', 'C13', 'C15', 'C19', 'C20']
+PENDING = ['C08', 'C11', 'C12', 'C13', 'C15', 'C20']
 
 
 def main():
